@@ -218,7 +218,8 @@ func (ex *Exec) inClosureOfUnit() bool { return false }
 
 // eventName decides whether a call is an event and under which name.
 func (ex *Exec) eventName(fn *types.Func, call *ast.CallExpr) (string, bool) {
-	if !ex.traceEvents {
+	if !ex.traceEvents || ex.inContract() {
+		// a call written inside a specification expression is a term, not an event of the execution
 		return "", false
 	}
 	if fn != nil {
@@ -235,8 +236,8 @@ func (ex *Exec) eventName(fn *types.Func, call *ast.CallExpr) (string, bool) {
 		if ex.contract != nil && len(ex.inlineStack) == 0 {
 			// a callee named by an at-call clause of the unit under verification is an event of that unit
 			for _, ac := range ex.contract.AtCall {
-				if ac.Callee == fn.Name() {
-					return fn.Name(), true
+				if ac.Callee == fn.Name() || (fn.Pkg() != nil && ac.Callee == fn.Pkg().Name()+"."+fn.Name()) {
+					return ac.Callee, true
 				}
 			}
 		}
